@@ -49,7 +49,7 @@ def _base_event():
             "val": "none", "keys": [], "haspre": False, "ret": "none",
             "expect": "none", "retok": True, "rater": "none",
             "streq": False, "badval": False, "via": "fresh", "kwvals": {},
-            "orphan": False, "rxhi": "none", "binfail": False,
+            "orphan": False, "rxhi": "none", "binfail": False, "details": False,
             "contnan": False, "tree": False, "pseudo": False,
             "retnum": {"m1": False, "zero": False, "inrange": False,
                        "finite": False}}
